@@ -1,6 +1,7 @@
 package bft
 
 import (
+	"bytes"
 	"github.com/canopy-network/canopy/lib"
 	"github.com/canopy-network/canopy/lib/crypto"
 )
@@ -110,11 +111,29 @@ func (b *BFT) addSigToVoteSet(vote *Message, voteSet *VoteSet) (err lib.ErrorI) 
 	return
 }
 
+// electionVotePayloadIsForSelf() reports whether the payload of an ELECTION_VOTE (lock, VDF, evidence) is to be
+// processed by this replica: the vote names it as the candidate, for its current round, and it has not yet
+// moved past the PROPOSE phase of that round
+func electionVotePayloadIsForSelf(namesSelf bool, voteRound, round uint64, phase Phase) bool {
+	return namesSelf && voteRound == round && (phase == Election || phase == ElectionVote || phase == Propose)
+}
+
 // handleHighQCVDFAndEvidence() processes any 'highQC', 'vdf' or 'evidence' an ElectionVote from a Replica may have submitted
 func (b *BFT) handleHighQCVDFAndEvidence(vote *Message) lib.ErrorI {
 	// Replicas sending in highQC & evidences to proposer during election vote
 	if vote.Qc.Header.Phase == ElectionVote {
+		// the lock, VDF and evidence carried by an election vote are addressed to the candidate the vote names,
+		// for the round it is running, before a proposal exists: any other recipient (or a replica already past
+		// the PROPOSE phase) only counts the vote
+		if !electionVotePayloadIsForSelf(bytes.Equal(vote.Qc.ProposerKey, b.PublicKey), vote.Qc.Header.Round, b.Round, b.Phase) {
+			return nil
+		}
 		if vote.HighQc != nil {
+			// a lock handed to the next leader must carry the proposal it certifies (the hashes bind them),
+			// otherwise the leader could never re-propose it
+			if vote.HighQc.Block == nil || vote.HighQc.Results == nil {
+				return lib.ErrNilBlock()
+			}
 			// check the highQC for a valid header
 			if err := vote.HighQc.Header.Check(&lib.View{
 				Phase:     PrecommitVote,
@@ -137,7 +156,6 @@ func (b *BFT) handleHighQCVDFAndEvidence(vote *Message) lib.ErrorI {
 			if b.HighQC == nil || b.HighQC.Header.Less(vote.HighQc.Header) {
 				b.log.Infof("Replica %s submitted a highQC", lib.BytesToTruncatedString(vote.Signature.PublicKey))
 				b.HighQC = vote.HighQc
-				b.Block, b.Results = vote.Qc.Block, vote.Qc.Results
 				b.RCBuildHeight = vote.RcBuildHeight
 			}
 		}
